@@ -24,6 +24,7 @@ Inductive uexpr :=
 | UAlias (a : uexpr) (n : string)
 | UGetItemLit (a : uexpr) (k : nat)      (* a.getItem(k) / a.getField *)
 | UGetItemCol (a : uexpr) (c : uexpr)    (* a.getItem(<Column>) *)
+| UExpr (e : sexpr)                      (* F.expr(text) / a SQL-string Column: e is the parse tree of the text *)
 with ubranches :=
 | UBEnd
 | UBElse (e : uexpr)
@@ -47,12 +48,15 @@ Definition has_reflected (o : uop) : bool := is_arith o.
 Definition all_uop := [UAdd; USub; UMul; UDiv; UMod; UEq; UNeq; ULt; ULe; UGt; UGe; UAnd; UOr].
 
 (** ---- facts regenerated from column.py (tie T1) ---------------------------------------------- *)
+(** how an operator passes its operands on: untouched, through _operand, through _connector_operand *)
+Inductive wmode := WNone | WAll | WConn.
+
 Record binfact := mkBF {
   bf_cls : bop;             (* sqlglot class handed to binary_op / inverse_binary_op *)
   bf_self_left : bool;      (* the receiver ends up as the LEFT operand (this=) *)
   bf_paren : bool;          (* the result is wrapped in exp.Paren *)
   bf_strlit : bool;         (* a bare str operand becomes a string literal (not a column name) *)
-  bf_opwrap : bool }.       (* operands go through _operand: a bare comparison-level / NOT-prefixed one is parenthesised *)
+  bf_opwrap : wmode }.      (* operands go through _operand / _connector_operand: a bare operator expression is parenthesised *)
 Record unfact := mkUF { uf_not : bool; uf_paren : bool }.   (* exp.Not / exp.Neg ; operand wrapped in Paren *)
 
 Record cfg := mkCfg {
@@ -74,14 +78,35 @@ Record cfg := mkCfg {
   c_substr_zero_as_one : bool }.  (* substr: a bare Python int position 0 is written as 1 (Spark reads 0 as 1) *)
 
 (** ---- sqlframe's builder ---------------------------------------------------------------------- *)
-(** column.py's _operand: the expression classes that are written bare *)
+(** column.py's _operand: the expression classes that are written bare (every infix operator of the model, NOT,
+    IS NULL, IN, BETWEEN); _connector_operand: under AND / OR only a bare AND / OR or arithmetic expression *)
 Definition is_open (e : sexpr) : bool :=
   match e with
-  | SBin o _ _ => match o with Add | Sub | Mul | Div | Mod => false | _ => true end
-  | SNot _ | SIsNull _ | SIn _ _ | SBetween _ _ _ => true
+  | SBin _ _ _ | SNot _ | SIsNull _ | SIn _ _ | SBetween _ _ _ => true
   | _ => false
   end.
-Definition wrap (w : bool) (e : sexpr) : sexpr := if w && is_open e then SParen e else e.
+Definition is_open_conn (e : sexpr) : bool :=
+  match e with
+  | SBin o _ _ => match o with And | Or | Add | Sub | Mul | Div | Mod => true | _ => false end
+  | _ => false
+  end.
+Definition wrap (w : wmode) (e : sexpr) : sexpr :=
+  match w with
+  | WNone => e
+  | WAll => if is_open e then SParen e else e
+  | WConn => if is_open_conn e then SParen e else e
+  end.
+Definition wb (b : bool) : wmode := if b then WAll else WNone.
+Definition is_wall (w : wmode) : bool := match w with WAll => true | _ => false end.
+
+(** results closed on both sides, at the SQL level *)
+Definition bclosed (e : sexpr) : bool :=
+  match e with
+  | SCol _ | SLit _ | SParen _ | SCase _ | SCast _ _ | SCall2 _ _ _ | SCall3 _ _ _ _ => true
+  | SNeg (SParen _) => true
+  | SBracket (SCol _) _ => true
+  | _ => false
+  end.
 
 Definition mkbin (bf : binfact) (self0 other0 : sexpr) : sexpr :=
   let self := wrap (bf_opwrap bf) self0 in
@@ -136,15 +161,15 @@ Fixpoint build (c : cfg) (t : uexpr) : sexpr :=
       mkbin bf (build c a) (match b with UPy v => pylit (bf_strlit bf) v | _ => build c b end)
   | UNeg a => mkun (c_neg c) (build c a)
   | UNot a => mkun (c_not c) (build c a)
-  | UIsNull a => SIsNull (wrap (c_pred_opwrap c) (build c a))
+  | UIsNull a => SIsNull (wrap (wb (c_pred_opwrap c)) (build c a))
   | UIsNotNull a =>
-      let x := SIsNull (wrap (c_pred_opwrap c) (build c a)) in
+      let x := SIsNull (wrap (wb (c_pred_opwrap c)) (build c a)) in
       SNot (if c_isnotnull_paren c then SParen x else x)
-  | UIsin a vs => SIn (wrap (c_pred_opwrap c) (build c a)) vs
+  | UIsin a vs => SIn (wrap (wb (c_pred_opwrap c)) (build c a)) vs
   | UBetween a lo hi =>
-      let w := c_pred_opwrap c in SBetween (wrap w (build c a)) (wrap w (build c lo)) (wrap w (build c hi))
-  | ULike a p => SBin (c_like_cls c) (wrap (c_pred_opwrap c) (build c a)) (SLit (VStr p))
-  | UILike a p => SBin (c_ilike_cls c) (wrap (c_pred_opwrap c) (build c a)) (SLit (VStr p))
+      let w := wb (c_pred_opwrap c) in SBetween (wrap w (build c a)) (wrap w (build c lo)) (wrap w (build c hi))
+  | ULike a p => SBin (c_like_cls c) (wrap (wb (c_pred_opwrap c)) (build c a)) (SLit (VStr p))
+  | UILike a p => SBin (c_ilike_cls c) (wrap (wb (c_pred_opwrap c)) (build c a)) (SLit (VStr p))
   | URlike a p => SCall2 (c_rlike_fn c) (build c a) (SLit (VStr p))
   | UStartsWith a b => SCall2 (c_startswith_fn c) (build c a) (build c b)
   | UEndsWith a b => SCall2 (c_endswith_fn c) (build c a) (build c b)
@@ -157,6 +182,7 @@ Fixpoint build (c : cfg) (t : uexpr) : sexpr :=
   | UGetItemLit a k => SBracket (build c a) (offset_key (c_getitem_lit_off c) (SLit (VInt (Z.of_nat k))))
   | UGetItemCol a i =>
       SBracket (build c a) (offset_key (getitem_off c (build c i)) (build c i))
+  | UExpr e => e
   end
 with buildb (c : cfg) (bs : ubranches) : branches :=
   match bs with
@@ -190,6 +216,7 @@ Fixpoint denote (t : uexpr) : sexpr :=
   | UAlias a _ => denote a
   | UGetItemLit a k => SBracket (denote a) (SBin Add (SLit (VInt (Z.of_nat k))) (SLit (VInt 1)))
   | UGetItemCol a i => SBracket (denote a) (SBin Add (denote i) (SLit (VInt 1)))
+  | UExpr e => strip e
   end
 with denoteb (bs : ubranches) : branches :=
   match bs with
@@ -202,7 +229,7 @@ with denoteb (bs : ubranches) : branches :=
 Definition index0 (l : list val) (k : Z) : val := if 0 <=? k then nth (Z.to_nat k) l VNull else VNull.
 
 Fixpoint ubase (t : uexpr) : option string :=
-  match t with UCol n => Some n | UAlias a _ => ubase a | _ => None end.
+  match t with UCol n => Some n | UAlias a _ => ubase a | UExpr e => abase e | _ => None end.
 
 Fixpoint ueval (en : env) (t : uexpr) : val :=
   match t with
@@ -239,6 +266,7 @@ Fixpoint ueval (en : env) (t : uexpr) : val :=
       | Some n, VInt k => match arr_lookup (e_arrs en) n with Some l => index0 l k | None => VNull end
       | _, _ => VNull
       end
+  | UExpr e => seval en e        (* the text means what its parse tree means *)
   end
 with uevalb (en : env) (bs : ubranches) : val :=
   match bs with
@@ -250,7 +278,7 @@ with uevalb (en : env) (bs : ubranches) : val :=
 (** rows on which a Column index is negative are outside the domain (Spark: NULL; engines: from the end) *)
 Fixpoint udom (en : env) (t : uexpr) : bool :=
   match t with
-  | UCol _ | ULit _ | UPy _ => true
+  | UCol _ | ULit _ | UPy _ | UExpr _ => true
   | UBin _ a b | UNse a b | UStartsWith a b | UEndsWith a b => udom en a && udom en b
   | URBin _ _ a | UNeg a | UNot a | UIsNull a | UIsNotNull a | UIsin a _ | ULike a _ | UILike a _
   | URlike a _ | UCast a _ | UAlias a _ | UGetItemLit a _ => udom en a
@@ -271,7 +299,7 @@ with udomb (en : env) (bs : ubranches) : bool :=
     property, they are refutation material. *)
 Fixpoint agree (en : env) (t : uexpr) : bool :=
   match t with
-  | UCol _ | ULit _ | UPy _ => true
+  | UCol _ | ULit _ | UPy _ | UExpr _ => true
   | UBin _ a b | UNse a b | UStartsWith a b | UEndsWith a b | UGetItemCol a b => agree en a && agree en b
   | URBin _ _ a | UNeg a | UNot a | UIsNull a | UIsNotNull a | UIsin a _ | ULike a _ | UILike a _
   | URlike a _ | UAlias a _ | UGetItemLit a _ => agree en a
@@ -299,7 +327,7 @@ Proof.
 Qed.
 
 Lemma abase_denote t : abase (denote t) = ubase t.
-Proof. induction t; cbn [denote abase ubase]; auto. Qed.
+Proof. induction t; cbn [denote abase ubase]; auto. apply abase_strip. Qed.
 
 Lemma value_mut :
   (forall t en, udom en t = true -> agree en t = true -> seval en (denote t) = ueval en t) /\
@@ -331,4 +359,5 @@ Proof.
     destruct (ueval en c) eqn:E; cbn [bin3 arith num_of is_int andb mk_num]; try reflexivity.
     destruct (arr_lookup (e_arrs en) s); [|reflexivity].
     replace (z * Z.pos 1 + 1 * Z.pos 1) with (z + 1) by lia. apply index_shift. apply Z.leb_le. assumption.
+  - (* F.expr *) apply (proj1 seval_strip).
 Qed.
